@@ -39,7 +39,27 @@ type C16Scenario struct {
 
 var c16Fields = []string{"", "h1", "100", " 99", "7", "x.log", "text", "WARN something", "ERROR|bad", "FATAL", "WARNING", "a|b", "é", "\x1b[31mred\x1b[0m", "\x1b[", "%s%d", " ", "REMOTE", "100\n", "\t"}
 
+// genC16Message generates one server message. An ESC byte that does not start
+// a complete SGR sequence is replaced: "the coloured rendering with its escape
+// sequences removed" is not well defined for content that ends in half an
+// escape sequence (the brush's own sequence then completes it, and removing
+// sequences from both renderings leaves different remainders) - a false alarm
+// of the comparison, seen once in 2 801 runs with another seed (DESIGN §9.3).
 func genC16Message(r *Rand) []byte {
+	b := genC16MessageRaw(r)
+	keep := map[int]bool{}
+	for _, loc := range sgrRe.FindAllIndex(b, -1) {
+		keep[loc[0]] = true
+	}
+	for i := range b {
+		if b[i] == 0x1b && !keep[i] {
+			b[i] = '?'
+		}
+	}
+	return b
+}
+
+func genC16MessageRaw(r *Rand) []byte {
 	join := func(prefix string, n int) []byte {
 		parts := []string{prefix}
 		for i := 0; i < n; i++ {
